@@ -11,6 +11,7 @@
      SecurityContext._check_signature, selection      <->  Model.candidates (= select . signing_certs), MissingKey
      SecurityContext._check_signature, verify loop    <->  fst . Model.try_certs
      Request._do_redirect_sig_check                   <->  fst . Model.try_detached over Model.signing_certs
+     CryptoBackendXmlSec1.validate_signature, argv    <->  Model.verify_cmdline: confined for every version
      AuthnResponse._assertion, signature step         <->  fst . Model.accept for one signed element
      AuthnResponse.parse_assertion, plain assertions  <->  fst . Model.accept_parts *)
 From Coq Require Import String Ascii List Bool ZArith Arith Lia.
@@ -986,3 +987,57 @@ Example certs_outer_hyps_sat :
   /\ src2_certs_outer repack (enc_md mdx) (PStr "nobody") (PStr "any") (PStr "signing") = PExc "KeyError"
   /\ signing_certs kblank (to_model mdx) (Some "idp") = [k (KText "CCC"); k (KText "AAA"); k (KText "BBB")].
 Proof. cbv zeta. repeat split; vm_compute; reflexivity. Qed.
+
+
+(* ================================================================== CryptoBackendXmlSec1.validate_signature: the command line *)
+(* reading a command line the way the binary does: is --enabled-key-data there, and is its value exactly
+   raw-x509-cert (argv[0] is the program) *)
+Fixpoint argv_confined (l : list pyval) : bool :=
+  match l with
+  | PStr o :: ((PStr v :: _) as r) => if String.eqb o "--enabled-key-data" then String.eqb v "raw-x509-cert" else argv_confined r
+  | _ :: r => argv_confined r
+  | [] => false
+  end.
+Definition cmd_confined (l : list pyval) : bool := argv_confined (tl l).
+
+(* the backend object: its class, the path of the binary, anything else (the version it reports included) *)
+Definition enc_backend (bin : string) (rest : list (string * pyval)) : pyval :=
+  PObj (("__class__", PStr "CryptoBackendXmlSec1") :: ("xmlsec", PStr bin) :: rest).
+
+Definition verify_argv (bin cf ct nn : string) (nid : option string) : list pyval :=
+  [PStr bin; PStr "--verify"; PStr "--enabled-reference-uris"; PStr "empty,same-doc"; PStr "--enabled-key-data";
+   PStr "raw-x509-cert"; PStr ("--pubkey-cert-" ++ ct); PStr cf; PStr "--id-attr:ID"; PStr nn]
+  ++ match nid with Some i => if String.eqb i "" then [] else [PStr "--node-id"; PStr i] | None => [] end.
+
+Lemma str_app_empty (s : string) : (s ++ "")%string = s.
+Proof. induction s as [|a s IH]; cbn; [reflexivity|rewrite IH; reflexivity]. Qed.
+
+(* for every backend object -- whatever else it holds, so whatever version the binary reports --, certificate
+   file, certificate type, node name and node id (absent, empty or not) *)
+Lemma src2_verify_cmdline_is_model (bin cf ct nn : string) (nid : option string) (rest : list (string * pyval)) (tmp : pyval) :
+  src2_verify_cmdline (enc_backend bin rest) (PStr cf) (PStr ct) (PStr nn)
+    (match nid with Some i => PStr i | None => PNone end) tmp
+  = PList (verify_argv bin cf ct nn nid).
+Proof.
+  unfold src2_verify_cmdline, enc_backend, verify_argv.
+  destruct nid as [[|a i]|]; cbn; rewrite str_app_empty; reflexivity.
+Qed.
+
+Lemma verify_argv_confined bin cf ct nn nid (v : version) :
+  cmd_confined (verify_argv bin cf ct nn nid) = key_data_confined (verify_cmdline v).
+Proof. reflexivity. Qed.
+
+Lemma src2_verify_cmdline_confined (bin cf ct nn : string) (nid : option string) (rest : list (string * pyval)) (tmp : pyval)
+  (v : version) :
+  src2_verify_cmdline (enc_backend bin rest) (PStr cf) (PStr ct) (PStr nn)
+    (match nid with Some i => PStr i | None => PNone end) tmp
+  = PList (verify_argv bin cf ct nn nid)
+  /\ cmd_confined (verify_argv bin cf ct nn nid) = key_data_confined (verify_cmdline v).
+Proof. split; [apply src2_verify_cmdline_is_model|apply verify_argv_confined]. Qed.
+
+(* the reader is not trivially true: without the option, or with a longer list, a command line is not confined *)
+Example cmd_confined_reads :
+  cmd_confined [PStr "xmlsec1"; PStr "--verify"; PStr "--pubkey-cert-pem"; PStr "f"] = false
+  /\ cmd_confined [PStr "xmlsec1"; PStr "--verify"; PStr "--enabled-key-data"; PStr "raw-x509-cert,rsa"; PStr "f"] = false
+  /\ cmd_confined [PStr "xmlsec1"; PStr "--verify"; PStr "--enabled-key-data"; PStr "raw-x509-cert"; PStr "f"] = true.
+Proof. vm_compute. repeat split; reflexivity. Qed.
